@@ -513,9 +513,13 @@ func runParent(propId, tier string) int {
 			}
 		}
 		pr.violations = append(pr.violations, res.Violations...)
-		for _, he := range res.HarnessErrors {
-			pr.inconcl = append(pr.inconcl, "harness error: "+firstLine(he))
-			fmt.Fprintln(os.Stderr, he)
+		for i, he := range res.HarnessErrors {
+			if i < 2 {
+				pr.inconcl = append(pr.inconcl, "harness error: "+firstLine(he))
+			}
+			if i == 0 && s == 0 {
+				fmt.Fprintln(os.Stderr, he)
+			}
 		}
 		if fp, ferr := os.ReadFile(filepath.Join(dir, fmt.Sprintf("distinct-%d.bin", s))); ferr == nil {
 			for i := 0; i+8 <= len(fp); i += 8 {
